@@ -101,8 +101,10 @@ func FindValuePackage(n ssa.Value) fn.Optional[string] {
 			// the package of a method is the package of its receiver
 			pkg = node.Params[0].Parent().Package()
 		}
-		if pkg != nil {
-			return fn.Some(pkg.String())
+		if pkg != nil && pkg.Pkg != nil {
+			// the package path, as in FindSafeCalleePkg (pkg.String() is "package <path>", which anchored
+			// package regexes of code identifiers can never match)
+			return fn.Some(pkg.Pkg.Path())
 		}
 		return fn.None[string]()
 	}
